@@ -64,6 +64,7 @@ type FuncContract struct {
 	Modifies []string
 	Loops    []*LoopContract
 	Asserts  []*Clause
+	MustCalls []*MustCall // function level: at every return where `when` holds, the callee was called on the path
 	AtReturns []*Clause   // obligations at return statements (where the clause's variables are in scope)
 	CallSites []*CallSite // obligations at every call of a named callee inside this function
 	Options  map[string]string
@@ -376,8 +377,8 @@ func ParseContractFile(path, pkg string) (*ContractFile, error) {
 			}
 			cur.Loops = append(cur.Loops, curLoop)
 		case "mustcall":
-			if curLoop == nil {
-				return nil, fmt.Errorf("%s:%d: mustcall outside loop", path, it.line)
+			if curLoop == nil && cur == nil {
+				return nil, fmt.Errorf("%s:%d: mustcall outside func", path, it.line)
 			}
 			f := strings.SplitN(strings.TrimSpace(rest), " ", 2)
 			wi := -1
@@ -395,7 +396,12 @@ func ParseContractFile(path, pkg string) (*ContractFile, error) {
 			if err != nil {
 				return nil, err
 			}
-			curLoop.MustCalls = append(curLoop.MustCalls, &MustCall{Callee: f[0], Label: ac.Label, ArgCond: ac.E, When: wc.E, Text: strings.TrimSpace(f[1]), Line: it.line})
+			mcl := &MustCall{Callee: f[0], Label: ac.Label, ArgCond: ac.E, When: wc.E, Text: strings.TrimSpace(f[1]), Line: it.line}
+			if curLoop != nil {
+				curLoop.MustCalls = append(curLoop.MustCalls, mcl)
+			} else {
+				cur.MustCalls = append(cur.MustCalls, mcl)
+			}
 			cf.NClauses++
 		case "invariant", "decreases", "step":
 			if curLoop == nil {
